@@ -64,4 +64,7 @@ def big_spaces(ctx, prop="C05", sched=("synchronous",), keep=None):
 
 
 def replay(ctx, payload):
+    if payload["case"].get("kind") in ("eval", "calib"):
+        from harness.drivers import _calib
+        return _calib.replay(ctx, payload)
     return O.replay(ctx, payload)
